@@ -22,12 +22,10 @@
                                before both sides can finish;
     `failed_read_no_payload`   a rejecting read returns no payload and leaves the state as it was
                                (C07), so the receiver does not advance.
-  NOT assembled: the single end-to-end statement `C03_main` ("for every valid instance and every
-  altered message m' ≠ m_i, with all other messages delivered unmodified, not both parties finish
-  without an error, or a witness") — it needs a second simulation relation for diverged pairs
-  through DH tokens; it is kept visible below as a comment. The end-to-end claim therefore
-  additionally rests on the implementation oracle (every single-field alteration of every message of
-  every pattern, plus continuation runs) evaluated on every check run.
+  The end-to-end statements are in `Theorems/C03Main.lean` (`C03_main`, `C03_hash`, `C03_last`):
+  proved on the specification (`Lemmas/Integrity*.lean`) and carried to this model through the
+  C01 refinement. The message-level form of the second sentence of the property is
+  `Spec.Integrity.keyed_field_alteration` / `keyed_payload_alteration` (`Lemmas/IntegrityField.lean`).
 -/
 import SnowVerif.Lemmas.Honest
 import SnowVerif.Lemmas.C14Len
@@ -128,16 +126,5 @@ theorem last_message_keyed :
     ∀ p ∈ Generated.allPatterns,
       Framing.keyedAfter false (p.tokens.msgs.flatten) false = true ∧ p.tokens.msgs ≠ [] := by
   decide
-
-/-
-  Full statement kept visible (not proved; see the header):
-
-  theorem C03_main (S) (laws: DecSound, DecEnc, EncLen, ...) (inst) (hv : Spec.valid inst)
-      (A B : HS) (hc : C02.Consistent S inst k0 A B) (plan) (i : Nat) (m' : Bytes) :
-      let honest run up to message i, m_i the genuine message i, m' ≠ m_i delivered instead,
-      all other messages delivered unmodified:
-      ¬ (all calls of both parties up to and including both `is_handshake_finished` return ok)
-      ∨ Forgery ∨ HashCollision ∨ AeadContextCollision ∨ KdfCoincidence
--/
 
 end SnowVerif.Theorems.C03
